@@ -13,6 +13,9 @@ Op line (one self-contained case per line; doubles as 16 hex digits, `nan` = mis
   K more learners of the same kind, then wlearner::merge is applied to the list
 Result line (harness/c10.cpp): `ok fit <score>|nofit feat … thr … dir … hashes … h2t … nodes … tables … pred … groups … split …
   sub … scaled … extra … merge <count> before … after … mfeat … [stump1 …]`
+Every fit (decision trees, k-best / k-split tables included) is computed by the Lean model itself and compared with the
+implementation's; the oracle re-derives the tree (breadth-first greedy, brute-force stump per node), the k-best family (all
+subsets) and the k-split family (greedy agglomeration) independently in python.
 """
 import math, os
 import vlib
@@ -30,13 +33,24 @@ OBLIGATIONS = [NS + t for t in [
     "table_cache_eq_first_best", "old_fit_assignment_dependent",
     "predict_adds", "predict_missing_zero", "predict_eq_table_of_split", "scale_scales", "merge_preserves_sum",
     "mergeSort_sortSpec", "sweep_sound", "sweep_complete", "findHash_sorted",
+    # the fit of the decision tree (Model/WLearnerTree.lean)
+    "dtreeFit_fuel_enough", "dtree_depth1_eq_stump", "dtree_fit_wellformed", "dtree_leaves_partition",
+    "dtree_leaf_table_is_mean", "dtree_leaf_rows_are_means", "tbase_inj", "tbase_surj", "TInv.step", "dtreeFit_inv", "TInv.entry_origin", "route_forward", "route_through",
+    "stumpCands_means",
+    # the fits of the k-best / k-split tables (Model/WLearnerKTable.lean)
+    "dtree_fit_predict_reproduces_rss", "kbest_fit_predict_reproduces_rss", "ksplit_fit_predict_reproduces_rss",
+    "cluTrials_rel", "cluRel_rss", "rssOfC_subsetTable", "kbest_contrib",
+    "kbest_fit_eq_brute", "kbest_greedy_optimal_per_size", "ksplit_fit_eq_brute", "kbestCands_spec", "ksplitCands_spec",
+    "cluScore_merge", "cluStep_spec", "closestPair_valid", "mergeSort_pairSortSpec", "lsum_take_le_sublist",
 ]]
 TRUSTED = [
     "Lean 4.33.0 kernel; Mathlib modules Mathlib.Algebra.Order.Field.Basic, Mathlib.Algebra.Order.Field.Rat, "
     "Mathlib.Tactic.Ring/Linarith/Positivity/FieldSimp/NormNum (only in Proofs/WLearner*.lean and Props/C10.lean)",
     "axioms: at most propext, Classical.choice, Quot.sound (audited per theorem on every run)",
-    "hand-written generic-scalar model NanoVerif/Model/WLearner.lean of src/wlearner/{stump,hinge,affine,table,dtree,accumulator,"
-    "criterion,util,single}.cpp, include/nano/core/reduce.h, src/dataset/hash.cpp; tied to the code by the correspondence run: "
+    "hand-written generic-scalar model NanoVerif/Model/WLearner.lean (+ WLearnerTree.lean: dtree do_fit, WLearnerKTable.lean: "
+    "score_kbest / score_ksplit / accumulator_t::sort / cluster) of src/wlearner/{stump,hinge,affine,table,dtree,accumulator,"
+    "criterion,util,single}.cpp, src/machine/cluster.cpp (indices), include/nano/core/reduce.h, src/dataset/hash.cpp; tied to the "
+    "code by the correspondence run: "
     "harness/c10.cpp builds an in-memory datasource/dataset from the op line (1..16 pool threads), calls fit / predict / split / "
     "scale / clone / wlearner::merge / features of the real learners, vs the same model compiled at Float (driver_c10)",
     "Lean Float = g++ double for + - * / log in the same order (no -ffast-math, no FMA contraction on the x86-64 baseline); Eigen "
@@ -52,9 +66,17 @@ ASSUMPTIONS = [
     "theorems are about exact arithmetic (any linear ordered field) and the RSS criterion; AIC/AICc/BIC (std::log) are modelled "
     "at Float and covered by the correspondence run and the consistency clauses of the oracle only",
     "hfin: no computed score overflows (std::isfinite true); hbig: every computed score is below no_fit_score() = DBL_MAX",
-    "the fit of kbest / ksplit tables and of decision trees is not modelled: their fitted parameters are read from the "
-    "implementation's answer (augmented op) and predict / split / scale / merge are evaluated on them; 'tree of depth 1 = stump' "
-    "and 'the root of a tree is the stump' are checked by the oracle (bitwise) and through the modelled stump fit",
+    "every fit is modelled (the augmented op only carries epsilon1): the decision tree as the breadth-first loop of do_fit with the "
+    "stump fit at every node as an oracle (instantiated by the modelled stump fit), k-best as the prefix sums of the sorted deltas, "
+    "k-split as the greedy agglomeration of accumulator_t::cluster; std::sort of the (delta, bin) pairs is the oracle PairSortSpec "
+    "(any sorted permutation; the driver's mergeSort is proved to be one); theorems about kbest / ksplit optimality are for the RSS "
+    "criterion (+ kbest_greedy_optimal_per_size for every criterion); the k-split choice for a FIXED number of clusters is greedy and "
+    "not optimal (kernel-checked counterexample in Props/C10.lean); the fit-predict consistency (the RSS handed to make_score is the "
+    "RSS of the stored table's predictions) is proved for every k-best and every k-split candidate and every criterion "
+    "(kbest_fit_predict_reproduces_rss, ksplit_fit_predict_reproduces_rss) and checked by the python oracle for all 4 criteria",
+    "a tree whose stump selection at some node is decided by rounding in the model (runner-up within 1e-9 relative, not exactly equal) "
+    "is not compared (the driver prints a tiny gap); exact ties are compared; the python tree oracle accepts any node stump within "
+    "10*tol of the brute-force optimum of that node's samples",
     "selection-dependent fields are compared with the model when the gap between the best and the second-best candidate score "
     "exceeds 1e-9*max(1,|score|) OR is exactly 0 (exact ties - duplicated columns, symmetric integer data - go to the smallest "
     "feature index / the first candidate of the sweep since commits 62472c9 + 5de0896, for every thread count); only the band "
@@ -78,7 +100,10 @@ RULE = ("corpus (the three fixed defects: dstep all-missing feature, affine cons
         "column - 60% of those exact copies), missing "
         "rate 0 / 0.1 / 0.3 / 0.6 / all, 1..3 outputs, integer / quarter / sparse gradients (8% planted stump / table residuals -> "
         "clamped score), fitted sample lists: all / shuffled / subset / with repetitions / two samples, criterion rss 70%, "
-        "threads 1..16, scale vector of size 1 or one factor per table row, 0..3 extra fits merged; affine on a constant non-dyadic "
+        "threads 1..16, scale vector of size 1 or one factor per table row, 0..3 extra fits merged; every 12th case a GROWING tree "
+        "(6..200 samples, 1..5 scalar features with mostly distinct values, few missing values, max_depth 1..5, min_split 1..10, fitted "
+        "lists with repetitions / subsets) and every 10th a k-best / k-split case with 3..8 label sets, residual levels per group of "
+        "labels + noise, AIC / AICc / BIC 6 of 7 (so that bins are dropped / clusters merged); affine on a constant non-dyadic "
         "feature with N = 2..10 on purpose; a case is non-trivial when a fitted feature has ties or missing values, the sample "
         "list has repetitions or 2 entries; distinct by op text")
 FLAVOUR = {"quick": "plain", "thorough": "asan"}
@@ -320,6 +345,136 @@ def gen_case(rng, kind=None, small=False):
     return c
 
 
+def gen_tree_case(rng):
+    """decision trees that actually grow: many samples, scalar features with (mostly) distinct values, few missing values, so that
+    the stump fits of the inner nodes succeed; `min_split` over its domain with N large enough for `min_samples_size` to vary
+    in 0..10; max_depth 1..4 (5 rarely); fitted lists with repetitions (kept at the root only) and subsets"""
+    N = rng.choice([rng.range(6, 30), rng.range(30, 80), rng.range(80, 160), rng.range(100, 200)])
+    T = rng.choice([1, 1, 2])
+    feats = []
+    for _ in range(rng.choice([0, 0, 0, 1])):
+        feats.append(gen_class_feature(rng, N, "S", feats))
+    scal = []
+    for _ in range(rng.range(1, 5)):
+        mode = rng.choice(["wide", "wide", "perm", "int", "dup"])
+        if mode == "dup" and not scal:
+            mode = "perm"
+        if mode == "wide":
+            vals = [rng.range(-4 * N, 4 * N) / 4.0 for _ in range(N)]
+        elif mode == "perm":
+            vals = [float(v) for v in rng.shuffle(range(N))]
+        elif mode == "int":
+            m = rng.range(2, max(3, N // 2))
+            vals = [float(rng.range(0, m)) for _ in range(N)]
+        else:
+            vals = list(rng.choice(scal)[1])
+        pm = rng.choice([0.0, 0.0, 0.0, 0.03, 0.1, 0.25])
+        scal.append(("F", [NAN if rng.chance(pm) else v for v in vals]))
+    feats += scal
+    c = dict(kind="dtree", p1=rng.choice([1, 2, 2, 3, 3, 3, 4, 4, 5]), p2=rng.range(1, 10), crit=0 if rng.chance(0.75) else rng.range(1, 3),
+             threads=rng.choice([1, 2, 3, 4, 8, 16, rng.range(1, 16)]), N=N, T=T, feats=feats,
+             grads=gen_values(rng, N * T, rng.choice(["int", "quarter", "quarter"])), base=gen_values(rng, N * T, "int"))
+    mode = rng.choice(["all", "all", "shuffled", "subset", "rep"])
+    if mode == "all":
+        c["samples"] = list(range(N))
+    elif mode == "shuffled":
+        c["samples"] = rng.shuffle(range(N))
+    elif mode == "subset":
+        c["samples"] = rng.shuffle(range(N))[:rng.range(max(2, N // 2), N)]
+    else:
+        c["samples"] = [rng.below(N) for _ in range(rng.range(N // 2 + 1, 2 * N))]
+    c["scalemode"] = rng.below(2)
+    c["svals"] = [rng.choice([0.0, 0.5, 1.0, 2.0, 3.0]) for _ in range(rng.range(1, 5))]
+    c["sub"] = [rng.below(N) for _ in range(rng.range(0, 8))]
+    c["extras"] = [rng.shuffle(range(N))[:rng.range(max(2, N // 2), N)] for _ in range(rng.choice([0, 0, 1]))]
+    return c
+
+
+def gen_ktable_case(rng):
+    """k-best / k-split tables on categorical features with many label sets, mostly with AIC / AICc / BIC (with the RSS criterion the
+    k-split fit always keeps every bin and the k-best fit every bin with a non-zero mean): residuals = a level per GROUP of labels
+    plus small noise, so that merging clusters / dropping bins pays off and the greedy clustering has work to do"""
+    kind = rng.choice(["kbest", "ksplit", "ksplit"])
+    N = rng.range(12, 60)
+    T = rng.choice([1, 1, 2])
+    feats = []
+    ns = rng.range(1, 3)
+    for _ in range(ns):
+        C = rng.range(3, 8)
+        pm = rng.choice([0.0, 0.0, 0.1, 0.25])
+        feats.append(("S", C, [-1 if rng.chance(pm) else rng.below(C) for _ in range(N)]))
+    for _ in range(rng.choice([0, 0, 1])):
+        C = rng.range(2, 4)
+        pm = rng.choice([0.0, 0.1])
+        feats.append(("M", C, [-1 if rng.chance(pm) else rng.below(1 << C) for _ in range(N)]))
+    for _ in range(rng.choice([0, 0, 1])):
+        feats.append(("F", [float(rng.range(0, 5)) for _ in range(N)]))
+    f = feats[rng.below(ns)]
+    levels = rng.range(1, 3)
+    lvl = {l: [rng.choice([-4.0, -2.0, 0.0, 0.0, 1.0, 3.0, 3.25]) for _ in range(T)] for l in range(levels)}
+    group = {l: rng.below(levels) for l in range(f[1])}
+    noise = rng.choice([0.0, 0.25, 0.25, 0.5, 1.0])
+    grads = []
+    for i in range(N):
+        l = f[2][i]
+        for o in range(T):
+            base = 0.0 if l < 0 else lvl[group[l]][o]
+            grads.append(-(base + noise * rng.range(-2, 2)))
+    c = dict(kind=kind, p1=0, p2=0, crit=rng.choice([0, 1, 1, 2, 2, 3, 3]), threads=rng.choice([1, 2, 3, 4, 8, 16]), N=N, T=T, feats=feats,
+             grads=grads, base=gen_values(rng, N * T, "int"))
+    c["samples"] = gen_samples(rng, N) if rng.chance(0.3) else list(range(N))
+    if len(c["samples"]) < 8:
+        c["samples"] = list(range(N))
+    c["scalemode"] = rng.below(2)
+    c["svals"] = [rng.choice([0.0, 0.5, 1.0, 2.0]) for _ in range(rng.range(1, 4))]
+    c["sub"] = [rng.below(N) for _ in range(rng.range(0, 6))]
+    c["extras"] = [rng.shuffle(range(N))[:rng.range(max(8, N // 2), N)] for _ in range(rng.choice([0, 0, 1]))]
+    return c
+
+
+def gen_ksplit_merge_case(rng):
+    """several k-split tables on the SAME categorical feature with the same hashes and the same number of clusters but DIFFERENT
+    label -> table mappings, then wlearner::merge: table_wlearner_t::try_merge must compare hash2tables (not only its size).
+    One single-label feature with 3..4 labels; the main fit and the extra fits use disjoint sample blocks in which different pairs
+    of labels share a residual level (small noise), AIC / AICc / BIC so that the pair is merged into one cluster"""
+    C = rng.choice([3, 3, 4])
+    per = rng.range(4, 7)
+    T = rng.choice([1, 1, 2])
+    nblocks = rng.choice([2, 2, 3])
+    pairs = [(a, b) for a in range(C) for b in range(a + 1, C)]
+    chosen = rng.shuffle(pairs)[:nblocks]
+    if rng.chance(0.3):
+        chosen[-1] = chosen[0]                 # ... and sometimes the same mapping twice (these DO merge)
+    labels, grads, blocks = [], [], []
+    lo = [float(rng.range(-3, 3)) for _ in range(T)]
+    gap = rng.choice([4.0, 5.0, 6.0, 8.0])
+    for (a, b) in chosen:
+        idx = []
+        # the pair (a, b) shares the level `lo`, every other label has its own distant level
+        level = {}
+        nxt = 1
+        for l in range(C):
+            if l in (a, b):
+                level[l] = 0
+            else:
+                level[l] = nxt; nxt += 1
+        for l in range(C):
+            for _ in range(per):
+                idx.append(len(labels))
+                labels.append(l)
+                for o in range(T):
+                    grads.append(-(lo[o] + gap * level[l] + 0.25 * rng.range(-1, 1)))
+        blocks.append(rng.shuffle(idx))
+    N = len(labels)
+    feats = [("S", C, labels)]
+    if rng.chance(0.3):
+        feats.append(("F", [float(rng.range(0, 3)) for _ in range(N)]))
+    c = dict(kind="ksplit", p1=0, p2=0, crit=rng.choice([1, 2, 3]), threads=rng.choice([1, 2, 4, 8]), N=N, T=T, feats=feats, grads=grads,
+             base=[0.0] * (N * T), samples=blocks[0], scalemode=rng.below(2), svals=[rng.choice([0.5, 1.0, 2.0])],
+             sub=[rng.below(N) for _ in range(rng.range(0, 5))], extras=blocks[1:])
+    return c
+
+
 def gen_affine_constant(rng):
     """the affine learner on a feature that is constant (non-dyadic value) over the fitted samples: DESIGN.md §6 item 10"""
     N = rng.range(2, 10)
@@ -376,6 +531,12 @@ def gen(rng, tier):
     for k in range(n_random):
         if k % every == every // 2:
             ops.append(fmt(gen_affine_constant(rng)))
+        if k % 12 == 5:
+            ops.append(fmt(gen_tree_case(rng)))
+        if k % 10 == 7:
+            ops.append(fmt(gen_ktable_case(rng)))
+        if k % 25 == 3:
+            ops.append(fmt(gen_ksplit_merge_case(rng)))
         c = gen_case(rng, small=rng.chance(0.15))
         ops.append(fmt(c))
     return ops
@@ -584,6 +745,196 @@ def tree_group(nodes, x):
     return None
 
 
+def tree_fit_oracle(c, nofit, score, nodes, tables, split):
+    """the fit of a decision tree, re-derived from the definition (independent of the Lean model): breadth-first greedy
+    partitioning; every node pair carries a brute-force-optimal stump of the samples that reach it; a node is terminal iff it has
+    fewer than min(10, N*min_split/100) samples or depth+1 >= max_depth; the children get the DISTINCT samples of each side (sorted);
+    a leaf row is the mean residual of its side; table rows / `next` indices are handed out in processing order; one failing stump
+    fit makes the whole tree fail; score = sum over the terminal pairs of max(rss, 1e3*eps) (RSS criterion)"""
+    T, N = c["T"], c["N"]
+    maxd, minS = c["p1"], min(10, N * c["p2"] // 100)
+    rss_crit = c["crit"] == 0
+    samples = c["samples"]
+    tol = 1e-9 * max(1.0, sse_zero(residuals(c, samples))) + CLAMP
+
+    def side(f, thr, i):
+        v = fvalue(c["feats"][f], i)
+        return None if v is None else (0 if v < thr else 1)
+
+    def terminal(S, d):
+        return len(S) < minS or d + 1 >= maxd
+
+    def children(S, f, thr):
+        return [sorted({i for i in S if side(f, thr, i) == g}) for g in (0, 1)]
+
+    if nofit:
+        if not rss_crit:
+            return None
+        queue = [(samples, 0)]
+        for _ in range(1 << (maxd + 1)):
+            if not queue:
+                return fail("tree-fit", f"no fit reported although every node of the greedy tree (max_depth {maxd}, min samples {minS}) "
+                                        f"has a stump with clearly separated RSS")
+            S, d = queue.pop(0)
+            b = sorted(brute_stump(c, S))
+            if not b:
+                return None           # a node without any candidate stump: the whole tree fails, as reported
+            if len(b) > 1 and b[1][0] - b[0][0] <= 10 * tol:
+                return None           # the selection at this node is decided by rounding: not decidable here
+            if not terminal(S, d):
+                queue += [(ch, d + 1) for ch in children(S, b[0][1], b[0][2])]
+        return None
+
+    nn, nrows = len(nodes), len(tables)
+    if nn % 2 or nn == 0:
+        return fail("tree-layout", f"{nn} nodes")
+    queue = [(samples, 0, None)]       # (samples of the cache, depth, index of the parent node)
+    processed = 0
+    rows = 0
+    total = 0.0
+    leaf_of = {}
+    while queue:
+        S, d, parent = queue.pop(0)
+        i = 2 * processed
+        if i + 1 >= nn:
+            return fail("tree-layout", f"the greedy tree has more than {nn // 2} node pairs (cache #{processed}: {len(S)} samples, depth {d})")
+        if parent is not None and nodes[parent][2] != i:
+            return fail("tree-layout", f"node {parent}.next = {nodes[parent][2]}, its child cache is processed as node pair {i}")
+        (f, thr, nxt, tb), (f1, thr1, nxt1, tb1) = nodes[i], nodes[i + 1]
+        if (f, thr) != (f1, thr1):
+            return fail("tree-layout", f"node pair {i}: different stumps {nodes[i]} / {nodes[i + 1]}")
+        if not (0 <= f < len(c["feats"])) or c["feats"][f][0] != "F":
+            return fail("tree-layout", f"node {i} selects feature {f}")
+        sides = [[i2 for i2 in S if side(f, thr, i2) == g] for g in (0, 1)]
+        if not sides[0] or not sides[1]:
+            return fail("tree-stump", f"node pair {i}: threshold {thr!r} on feature {f} leaves a side empty ({len(S)} samples at depth {d})")
+        rs = [residuals(c, sd) for sd in sides]
+        miss = sse_zero(residuals(c, [i2 for i2 in S if side(f, thr, i2) is None]))
+        rss = sse_const(rs[0], T) + sse_const(rs[1], T) + miss
+        if rss_crit:
+            b = brute_stump(c, S)
+            best = min(x[0] for x in b)
+            if rss > best + 10 * tol:
+                return fail("tree-stump", f"node pair {i} (depth {d}, {len(S)} samples): stump (feature {f}, threshold {thr!r}) has RSS "
+                                          f"{rss!r}, the best stump on these samples {best!r}")
+        if terminal(S, d):
+            if nxt != 0 or nxt1 != 0:
+                return fail("tree-terminal", f"node pair {i} (depth {d}, {len(S)} samples, min samples {minS}, max_depth {maxd}) must be "
+                                             f"terminal, next = {nxt}, {nxt1}")
+            if (tb, tb1) != (rows, rows + 1) or rows + 1 >= nrows:
+                return fail("tree-layout", f"terminal node pair {i}: table rows {tb}, {tb1}, expected {rows}, {rows + 1} of {nrows}")
+            for g in (0, 1):
+                m = mean(rs[g], T)
+                if any(not close(a, bb, 1e-9 * max(1.0, abs(bb)) + 1e-12) for a, bb in zip(tables[rows + g], m)):
+                    return fail("tree-leaf", f"table row {rows + g} = {tables[rows + g]}, the mean residual of the {len(rs[g])} samples of "
+                                             f"this leaf is {m}")
+                for i2 in sides[g]:
+                    if leaf_of.setdefault(i2, rows + g) != rows + g:
+                        return fail("tree-partition", f"sample {i2} reaches the leaves {leaf_of[i2]} and {rows + g}")
+            rows += 2
+            total += max(rss, CLAMP)
+        else:
+            if nxt == 0 or nxt1 == 0:
+                return fail("tree-terminal", f"node pair {i} (depth {d}, {len(S)} samples, min samples {minS}, max_depth {maxd}) must be "
+                                             f"split further, next = {nxt}, {nxt1}")
+            if tb != -1 or tb1 != -1:
+                return fail("tree-layout", f"inner node pair {i} has table indices {tb}, {tb1}")
+            ch = children(S, f, thr)
+            queue += [(ch[0], d + 1, i), (ch[1], d + 1, i + 1)]
+        processed += 1
+    if 2 * processed != nn or rows != nrows:
+        return fail("tree-layout", f"{nn} nodes / {nrows} table rows, the greedy tree has {2 * processed} / {rows}")
+    for i2, L in leaf_of.items():
+        if split[i2] != L:
+            return fail("tree-partition", f"fitted sample {i2} belongs to leaf {L}, split() reports {split[i2]}")
+    if rss_crit and not close(score, total, 10 * tol * max(1, rows // 2)):
+        return fail("tree-score", f"score {score!r}, the sum over the {rows // 2} terminal node pairs of max(RSS, 1e3*eps) is {total!r}")
+    return None
+
+
+def py_score(crit, rss, k, n):
+    """the selection criteria from their textbook definitions (RSS clamped below by 1e3*eps); None = not finite"""
+    rss = max(rss, CLAMP)
+    try:
+        if crit == 0:
+            v = rss
+        elif crit == 1:
+            v = 2.0 * k + n * math.log(rss) - n * math.log(n)
+        elif crit == 2:
+            v = 2.0 * k + n * math.log(rss) - n * math.log(n) + 2.0 * (k * k + k) / (n - k - 1.0)
+        else:
+            v = k * math.log(n) + n * math.log(rss / n)
+    except (ZeroDivisionError, ValueError):
+        return None
+    return v if math.isfinite(v) else None
+
+
+def score_close(a, b, n, rss_scale):
+    """scores within rounding: RSS-like scores relative to the data scale, log-scores absolute (n * 1e-9 covers log(rss) noise)"""
+    return abs(a - b) <= 1e-9 * max(1.0, abs(a), abs(b), rss_scale) + 1e-7 * n * 1e-2 + CLAMP
+
+
+def ktable_candidates(c, samples, kind):
+    """([(score, rss, feature, rows, partition | None)], complete) for the k-best / k-split families, from the definition, per sample:
+    k-best: for every k the k label sets whose own mean explains most (every other fitted sample is predicted zero) — for up to
+    8 label sets all subsets of every size are enumerated, beyond that the k largest gains are taken; partition None = the best
+    subset of that size is not unique;
+    k-split: the greedy agglomeration — start with one cluster per label set, repeatedly merge the two clusters whose MEAN OUTPUTS
+    are closest (first closest pair in hash order, the later clusters move down by one), one candidate per number of clusters;
+    complete = False when some merge was decided by rounding or by the (here unknown) hash order of multi-label sets"""
+    import itertools
+    T = c["T"]
+    rs = residuals(c, samples)
+    n = len(samples)
+    out = []
+    complete = True
+    for fi, f in enumerate(c["feats"]):
+        if f[0] == "F":
+            continue
+        groups, miss = label_groups(f, samples, rs)
+        if not groups:
+            continue
+        labs = sorted(groups)            # single-label features: the hash of a label is the label
+        zmiss = sse_zero(miss)
+        if kind == "kbest":
+            gain = {l: sse_zero(groups[l]) - sse_const(groups[l], T) for l in labs}
+            for k in range(1, len(labs) + 1):
+                if len(labs) <= 8:
+                    cand = sorted((zmiss + sum(sse_const(groups[l], T) if l in sub else sse_zero(groups[l]) for l in labs), sub)
+                                  for sub in itertools.combinations(labs, k))
+                    rss, sub = cand[0]
+                    unique = len(cand) == 1 or cand[1][0] - rss > 1e-9 * max(1.0, rss)
+                else:
+                    order = sorted(labs, key=lambda l: -gain[l])
+                    sub = tuple(order[:k])
+                    rss = zmiss + sum(sse_const(groups[l], T) if l in sub else sse_zero(groups[l]) for l in labs)
+                    unique = k == len(labs) or gain[order[k - 1]] - gain[order[k]] > 1e-9 * max(1.0, rss)
+                sc = py_score(c["crit"], rss, k * T, n)
+                if sc is not None:
+                    out.append((sc, rss, fi, k, frozenset(sub) if unique else None))
+        else:
+            clusters = [[l] for l in labs]
+            while True:
+                members = [[r for l in cl for r in groups[l]] for cl in clusters]
+                rss = zmiss + sum(sse_const(m, T) for m in members)
+                sc = py_score(c["crit"], rss, len(clusters) * T, n)
+                if sc is not None:
+                    out.append((sc, rss, fi, len(clusters), frozenset(frozenset(cl) for cl in clusters)))
+                if len(clusters) == 1:
+                    break
+                means = [mean(m, T) for m in members]
+                ds = [(sqerr(means[a], means[b]), a, b) for a in range(len(clusters)) for b in range(a + 1, len(clusters))]
+                dmin = min(d for d, _, _ in ds)
+                near = [d for d, _, _ in ds if d - dmin <= 1e-9 * max(1.0, dmin)]
+                if len(near) > 1 and (any(d != dmin for d in near) or f[0] != "S"):
+                    complete = False
+                    break
+                _, a, b = min(ds, key=lambda x: (x[0], x[1], x[2]))
+                clusters[a] = clusters[a] + clusters[b]
+                del clusters[b]
+    return out, complete
+
+
 def fail(clause, msg, key=None):
     return f"[{clause}]" + (f" key={key}" if key else "") + " " + msg
 
@@ -623,6 +974,13 @@ def oracle(aug, res):
 
     nofit = S["fit"] == ["nofit"]
     if nofit:
+        if kind == "dtree":
+            return tree_fit_oracle(c, True, None, None, None, None)
+        if kind in ("kbest", "ksplit"):
+            kc, _ = ktable_candidates(c, samples, kind)
+            if kc:
+                return fail("ktable-fit", f"no fit reported although the {kind} family has a candidate with score "
+                                          f"{min(x[0] for x in kc)!r}")
         if kind in OPTIMAL_KINDS and brute:
             if rss_crit:
                 return fail("optimal", f"no fit reported although the class contains a learner with RSS {min(b[0] for b in brute)!r}")
@@ -786,10 +1144,41 @@ def oracle(aug, res):
         if lost:
             return fail("split-table", f"table rows {lost} (of {nrows}, hashes {hashes}) are never reported by split() on the fitted "
                                        f"samples (groups {sorted(seen)})", ukey)
-        if kind in ("kbest", "ksplit") and rss_crit:
+        if kind in ("kbest", "ksplit"):
+            # the reported score is the criterion of the RSS of the fitted learner's predictions with k = rows * outputs
             prss = sum(sqerr(r, vecs[i]) for i, r in zip(samples, rs))
-            if not close(max(prss, CLAMP), score, tol):
-                return fail("reproduce", f"{kind}: the RSS of the fitted learner's predictions is {prss!r}, the reported score {score!r}", ukey)
+            want = py_score(c["crit"], prss, nrows * T, len(samples))
+            if want is None or not score_close(want, score, len(samples), scale2 if rss_crit else 0.0):
+                return fail("reproduce", f"{kind}: the RSS of the fitted learner's predictions is {prss!r} -> criterion {want!r} with "
+                                         f"{nrows} rows, the reported score is {score!r}", ukey)
+            # the reported score is the minimum over the family (all features; k-best: all subsets of label sets of every size;
+            # k-split: the greedy agglomeration sequence), and the fitted rows / partition are the family member's when it is unique
+            kc, complete = ktable_candidates(c, samples, kind)
+            kc.sort(key=lambda x: x[0])
+            if not kc:
+                return fail("ktable-fit", f"{kind}: a fit is reported although the family is empty on these samples")
+            if complete and not score_close(kc[0][0], score, len(samples), scale2 if rss_crit else 0.0):
+                return fail("ktable-fit", f"{kind}: reported score {score!r} (feature {feat}, {nrows} rows), the minimum over the family is "
+                                          f"{kc[0][0]!r} (feature {kc[0][2]}, {kc[0][3]} rows)", ukey)
+            clear = len(kc) == 1 or kc[1][0] - kc[0][0] > 1e-6 * max(1.0, abs(kc[0][0]))
+            if clear and complete and ukey is None and kc[0][4] is not None:
+                _, _, bf, brows, bpart = kc[0]
+                if bf != feat[0] or brows != nrows:
+                    return fail("ktable-fit", f"{kind}: fitted feature {feat[0]} with {nrows} rows, the unique best member of the family is on "
+                                              f"feature {bf} with {brows} rows")
+                fitted_labs = {fvalue(f, i) for i in samples} - {None}
+                if kind == "kbest":
+                    kept = frozenset(l for l in fitted_labs if lab2g.get(l, -1) >= 0)
+                    if kept != bpart:
+                        return fail("ktable-fit", f"kbest: the table keeps the label sets {sorted(kept)}, the best subset is {sorted(bpart)}")
+                else:
+                    part = {}
+                    for l in fitted_labs:
+                        part.setdefault(lab2g.get(l, -1), set()).add(l)
+                    got = frozenset(frozenset(v) for v in part.values())
+                    if -1 in part or got != bpart:
+                        return fail("ktable-fit", f"ksplit: the table groups the label sets as {sorted(map(sorted, got))}, the greedy "
+                                                  f"agglomeration gives {sorted(map(sorted, bpart))}")
         if kind == "dense":
             fitted = {fvalue(f, i) for i in samples if fvalue(f, i) is not None}
             gs = [lab2g[v] for v in fitted]
@@ -834,6 +1223,12 @@ def oracle(aug, res):
         nextra = sum(1 for w in S["extra"][1:] if w != "nofit")
         if int(S["merge"][0]) > 1 + nextra or int(S["merge"][0]) < 1:
             return fail("merge", "number of learners after merge")
+
+    # ---- (5b) the fitted tree is the greedy breadth-first tree of brute-force stumps ----
+    if kind == "dtree":
+        why = tree_fit_oracle(c, False, score, nodes, tables, split)
+        if why:
+            return why
 
     # ---- (6) the root of a tree is the stump; a tree of depth 1 is the stump ----
     if kind == "dtree" and "stump1" in S:
@@ -883,7 +1278,10 @@ def compare(aug, impl, model):
     if A["head"] != ["ok"] or len(B["head"]) != 2 or B["head"][0] != "ok":
         return False
     if A.get("fit") == ["nofit"] or B.get("fit") == ["nofit"]:
-        return A.get("fit") == B.get("fit")
+        if A.get("fit") == B.get("fit"):
+            return True
+        # a tree: some node's stump selection of the model was decided by rounding -> fitted / not fitted is not compared
+        return vlib.is_hexf(B["head"][1]) and is_tie(h2f(B["head"][1]), 1.0) and aug.split()[1] == "dtree"
     if not same(A["fit"], B["fit"]):
         return False
     gap = h2f(B["head"][1])
@@ -899,6 +1297,10 @@ def compare(aug, impl, model):
     ia, ib = 1, 1
     tie = False
     while ia < len(ea):
+        if ib < len(eb) and eb[ib] == "tie":      # an extra tree with a node decided by rounding (model: not fitted)
+            tie = True
+            ia += 1; ib += 1
+            continue
         if ea[ia] == "nofit" or (ib < len(eb) and eb[ib] == "nofit"):
             if ib >= len(eb) or ea[ia] != eb[ib]:
                 return False
